@@ -298,6 +298,10 @@ struct reb_rotation reb_rotation_slerp(struct reb_rotation q1, struct reb_rotati
     // If theta = 180 degrees then result is not fully defined
     // We could rotate around any axis normal to q1 or q2
     if (fabs(sinHalfTheta) < QUATERNION_EPS) {
+        if (cosHalfTheta < 0.){
+            // q2 is (almost) -q1, i.e. the same rotation as q1. The average below would be the zero quaternion.
+            return q1;
+        }
         result.r = (q1.r * 0.5 + q2.r * 0.5);
         result.ix = (q1.ix * 0.5 + q2.ix * 0.5);
         result.iy = (q1.iy * 0.5 + q2.iy * 0.5);
